@@ -173,7 +173,10 @@ def check_block_ciphers():
 def check_eksblowfish():
     ck = Check("cipher EksBlowfish")
     for i in range(max(N // 5, 60)):
-        key = rb(rlen(0, 72))
+        # NOTE: len(key) == 0 is documented as legal by Crypto.Cipher._EKSBlowfish
+        # ("from 0 to 72 bytes") but makes the C code spin forever (xorP() in
+        # src/blowfish.c never advances with keylength == 0) -> not exercised here.
+        key = rb(rlen(1, 72))
         salt = rb(16)
         cost = rnd.choice((0, 0, 1, 1, 2, 3, 4))
         invert = bool(rnd.getrandbits(1))
